@@ -110,12 +110,23 @@ def ev(n, env):
     if k == "call" and env.get("__fb__") is not None and n.get("op") is None:
         # a side-effect-free in-repo helper (predicate on its arguments): evaluate its body
         g = env["__fb__"].resolve_call(n)
-        if g is None or g.body is None or "obj" in n and not (n.get("callee") or {}).get("static"):
+        on_this = "obj" in n and strip(n["obj"]).get("k") == "this" and (n.get("callee") or {}).get("const")
+        while on_this is False and "obj" in n and strip(n["obj"]).get("k") == "cast":
+            break
+        if "obj" in n and not on_this:
+            o = n["obj"]
+            while isinstance(o, dict) and o.get("k") == "cast":
+                o = o["e"]
+            on_this = isinstance(o, dict) and o.get("k") == "this" and bool((n.get("callee") or {}).get("const"))
+        if g is None or g.body is None or "obj" in n and not ((n.get("callee") or {}).get("static") or on_this):
             raise Unsupported("call %s" % (n.get("callee") or {}).get("name"))
         depth = env.get("__depth__", 0)
         if depth > 4:
             raise Unsupported("call depth")
         sub = {"__fb__": env["__fb__"], "__depth__": depth + 1}
+        if on_this:
+            # a const member called on the same object sees the same member values
+            sub.update({k2: v2 for k2, v2 in env.items() if isinstance(k2, str) and k2.startswith("this->")})
         for prm, a in zip(g.params, n.get("args", [])):
             sub[prm["decl"]] = _wrap(ev(a, env), prm.get("t"))
         try:
